@@ -60,6 +60,12 @@ def check_case(case, shard):
     from pyhf import exceptions as E
 
     spec = case["spec"]
+    opt = case.get("optimizer", "scipy")
+    if opt != pyhf.optimizer.name:
+        pyhf.set_backend(pyhf.tensorlib, opt)
+    shard.covered("optimizers", opt)
+    # MINUIT at its default tolerance is legitimately off by up to ~2e-4 on 2NLL for flat minima (calibration, DESIGN 2.6)
+    cf_abs, cf_rel, zero_tol = (1e-4, 1e-5, 1e-3) if opt == "scipy" else (2e-2, 1e-3, 2e-2)
     model = pyhf.Model(copy.deepcopy(spec), poi_name="mu")
     poi = model.config.poi_index
     init = model.config.suggested_init()
@@ -143,7 +149,7 @@ def check_case(case, shard):
         if counting:
             ref, rmuhat = RS.counting_teststat(stat if stat in ("q", "qtilde", "q0") else "t", mu, case["data"], ss, bs, lo, case["hi"])
             ref = float(ref)
-            if not abs(v - ref) <= 1e-4 + 1e-5 * abs(ref):
+            if not abs(v - ref) <= cf_abs + cf_rel * abs(ref):
                 shard.violate(f"C06/{stat}:closed-form", f"value {v!r} != closed form {ref!r} (muhat closed form {float(rmuhat)!r}); {ctx}", c, "closed_form")
             else:
                 shard.ok("closed_form")
@@ -154,7 +160,7 @@ def check_case(case, shard):
         if counting and stat in ("t", "ttilde", "q", "qtilde") and lo + 1e-3 < muhat < case["hi"] - 1e-3:
             try:
                 v0 = float(to_np(statfn(stat)(muhat, data, model, init, bounds, fixed)))
-                if not (0 <= v0 <= 1e-3):
+                if not (0 <= v0 <= zero_tol):
                     shard.violate(f"C06/{stat}:not-zero-at-bestfit", f"statistic at the returned best-fit value {muhat!r} is {v0!r}; {ctx}", c, "zero_at_bestfit")
                 else:
                     shard.ok("zero_at_bestfit")
@@ -232,7 +238,11 @@ def run_shard(shard):
     for k in range(p["n"]):
         kind = "counting" if k % 2 == 0 else "wellposed"
         case = make_case(rng, p["backend"], kind)
+        if p["backend"] == "numpy" and k % 4 in (2, 3):
+            case["optimizer"] = "minuit"
         check_case(case, shard)
+        if pyhf.optimizer.name != "scipy":
+            pyhf.set_backend(pyhf.tensorlib, "scipy")
         if k < 2 and shard.index == 0:
             shard.sample(case)
 
